@@ -409,3 +409,51 @@ def optype_(b, op):
 
 
 RULES.append(w5)
+
+
+@rule("W6", doc="no stale work-list key: when the handler takes an e-node out of the indexes, a work-list entry that an earlier step of the same handler may have created for it is taken along")
+def w6(ctx):
+    crate = ctx.lib()
+    from . import c02
+    ins, rem = c02._hc_split(crate)
+    req = set(C.requeue_functions(crate))
+    reach_req = {b.id for b in crate.fns() if req & set(crate.reachable_from([b.id], resolve_traits=False))} | req
+    n = 0
+    for hid in C.need("re-insert function (handle_pending)", C.reinsert_functions(crate)):
+        h = crate.bodies[hid]
+        R = [c for c in C.calls_to(crate, h, set(rem)) if c.body is h]
+        for r in R:
+            key = strip_role(h.role_of_operand(r.args[2])) if len(r.args) > 2 else None
+            if not (isinstance(key, tuple) and key[0] == "param"):
+                continue
+            n += 1
+            Q = [c for c in h.calls if c.callee and c.callee.target in reach_req and not h.blocks[c.bb]["cleanup"] and c.callee.target not in rem and c.callee.target not in ins]
+            Qb = [q for q in Q if r.bb in h.reach(h.after(q.bb))]
+            P = [c for c in h.calls if c.callee and c.callee.name in ("remove", "remove_entry") and c.args and role_mentions_field(h.role_of_operand(c.args[0]), "pending")
+                 and len(c.args) > 1 and strip_role(h.role_of_operand(c.args[1])) == key and not h.blocks[c.bb]["cleanup"]]
+            if not Qb:
+                ctx.ok("no-requeue-before-removal:" + C.fkey(h), "nothing that can re-queue usages runs before the e-node is taken out of the indexes", where_of(h, r.bb))
+                continue
+            pb = {p.bb for p in P}
+            ok = bool(P)
+            why = "there is no `pending.remove(%s)`" % key[1]
+            if ok:
+                for q in Qb:
+                    after_r = h.must_pass(h.after(r.bb), h.return_blocks(), pb)
+                    before_r = h.must_pass(h.after(q.bb), {r.bb}, pb)
+                    if not (after_r or before_r):
+                        ok = False
+                        why = "after %s a path takes the node out of the indexes and returns without passing `pending.remove(%s)`" % (q.callee.name, key[1])
+                for p in P:
+                    late = [q for q in Qb if q.bb in h.reach(h.after(p.bb))]
+                    if late:
+                        ok = False
+                        why = "%s can re-queue usages after `pending.remove(%s)` but before the node is taken out of the indexes" % (late[0].callee.name, key[1])
+            ctx.check(ok, "requeued-entry-moves-along:" + C.fkey(h),
+                      "%s: calls that can re-queue usages (%s) run before the e-node `%s` is removed from the indexes; the entry they may have created for it is removed from the work-list afterwards" % (C.short(hid), sorted({q.callee.name for q in Qb}), key[1]),
+                      "%s: %s runs while `%s` is still registered as a usage of its child classes — an e-node that refers to its own class re-queues itself — and then the node is removed / re-inserted under its re-canonicalised shape, but %s. The work-list keeps a shape that is in no index any more: the next round of rebuild panics at `hashcons[&sh]`" % (
+                          C.short(hid), sorted({q.callee.name for q in Qb}), key[1], why), where_of(h, r.bb))
+    ctx.floor("index removals keyed by the handler's work-list key", n, 1)
+
+
+RULES.append(w6)
